@@ -261,7 +261,7 @@ func TestC20Stats(t *testing.T) {
 				idx += nh
 				continue
 			}
-			em.Marker("begin", idx)
+			stBegin(em, idx)
 			first := idx
 			hs := newStatsSet(nh)
 			var err error
@@ -278,7 +278,7 @@ func TestC20Stats(t *testing.T) {
 			}
 			emitStats(em, &idx, "stats-client-unary", map[string]any{"scenario": sc.name, "err": fmt.Sprint(err)}, tags,
 				"(XCU "+sc.exit+")", hs, 1, err == nil || !strings.Contains(err.Error(), "PENDING"), err == nil)
-			em.Marker("end", first)
+			stEnd(em, first)
 		}
 	}
 
@@ -289,7 +289,7 @@ func TestC20Stats(t *testing.T) {
 				idx += nh
 				continue
 			}
-			em.Marker("begin", idx)
+			stBegin(em, idx)
 			first := idx
 			hs := newStatsSet(nh)
 			var err error
@@ -316,7 +316,7 @@ func TestC20Stats(t *testing.T) {
 			}
 			emitStats(em, &idx, "stats-client-stream-open", map[string]any{"open": fo, "err": fmt.Sprint(err)},
 				[]string{"role=client-stream", "exit=failed-open:" + fo}, exit, hs, 1, true, err == nil)
-			em.Marker("end", first)
+			stEnd(em, first)
 		}
 	}
 
@@ -351,7 +351,7 @@ func TestC20Stats(t *testing.T) {
 			idx += nh
 			continue
 		}
-		em.Marker("begin", idx)
+		stBegin(em, idx)
 		first := idx
 		hs, coqOps, finished, succ := runCsOps(t, nh, ops)
 		var names []string
@@ -365,7 +365,7 @@ func TestC20Stats(t *testing.T) {
 		emitStats(em, &idx, "stats-client-stream", map[string]any{"ops": names},
 			[]string{"role=client-stream", fmt.Sprintf("cs:oplen=%d", min(len(ops), 5)), "cs:" + end},
 			"(XCS CSO_ok "+coqList(coqOps)+")", hs, 1, finished, succ)
-		em.Marker("end", first)
+		stEnd(em, first)
 	}
 
 	// ---- server unary: real Serve, scripted client
@@ -394,7 +394,7 @@ func TestC20Stats(t *testing.T) {
 				idx += nh + 1
 				continue
 			}
-			em.Marker("begin", idx)
+			stBegin(em, idx)
 			first := idx
 			hs := newStatsSet(nh)
 			bubble(t, func(t *testing.T) {
@@ -423,7 +423,7 @@ func TestC20Stats(t *testing.T) {
 			em.Emit(Rec{Idx: idx, Kind: "conn-server", Desc: map[string]any{"scenario": sc.name, "nh": nh}, Tags: []string{"role=conn-server", "serve-exit=read-error"},
 				Coq: fmt.Sprintf("CConnS SV_read_error %s", coqList(hs[nh-1].connEvents()))})
 			idx++
-			em.Marker("end", first)
+			stEnd(em, first)
 		}
 	}
 
@@ -464,7 +464,7 @@ func TestC20Stats(t *testing.T) {
 				idx += nh
 				continue
 			}
-			em.Marker("begin", idx)
+			stBegin(em, idx)
 			first := idx
 			hs := newStatsSet(nh)
 			var coqOps, names []string
@@ -556,7 +556,7 @@ func TestC20Stats(t *testing.T) {
 			}
 			emitStats(em, &idx, "stats-server-stream", map[string]any{"ops": names, "result": res.coq}, tags,
 				fmt.Sprintf("(XSS (SS_run %s %s))", coqList(coqOps), res.coq), hs, 1, true, res.k == nil)
-			em.Marker("end", first)
+			stEnd(em, first)
 		}
 	}
 
@@ -566,7 +566,7 @@ func TestC20Stats(t *testing.T) {
 			idx += nh
 			continue
 		}
-		em.Marker("begin", idx)
+		stBegin(em, idx)
 		first := idx
 		hs := newStatsSet(nh)
 		bubble(t, func(t *testing.T) {
@@ -584,7 +584,7 @@ func TestC20Stats(t *testing.T) {
 		})
 		emitStats(em, &idx, "stats-server-stream", map[string]any{"scenario": "undecodable-metadata"},
 			[]string{"role=server-stream", "exit=undecodable-metadata"}, "(XSS SS_bad_metadata)", hs, 1, true, false)
-		em.Marker("end", first)
+		stEnd(em, first)
 	}
 
 	// ---- connections: Serve ended by its context; client connections with 0..2 Close calls
@@ -649,7 +649,7 @@ func TestC20E2E(t *testing.T) {
 					idx += 2 * nh
 					continue
 				}
-				em.Marker("begin", idx)
+				stBegin(em, idx)
 				first := idx
 				ch, sh := newStatsSet(nh), newStatsSet(nh)
 				var cexit, sexit string
@@ -874,7 +874,7 @@ func TestC20E2E(t *testing.T) {
 						idx++
 					}
 				}
-				em.Marker("end", first)
+				stEnd(em, first)
 			}
 		}
 	}
